@@ -161,8 +161,12 @@ func runKube(path []Op, log io.Writer) (string, *failure) {
 			h.OnDelete(endpointsObj(old.set, old.layout, old.rv))
 		}
 		if log != nil {
-			fmt.Fprintf(log, "  step %d %-40s expected published=%s | observed last published=%s (handler set %v, %d publications)\n",
-				i+1, o.String(), show(k.current()), show(published), h.VDump(), npub)
+			judged := ""
+			if !check {
+				judged = "  [not judged: the handler has not been told yet]"
+			}
+			fmt.Fprintf(log, "  step %d %-40s current addresses=%s | last published=%s (handler set %v, %d publications)%s\n",
+				i+1, o.String(), show(k.current()), show(published), h.VDump(), npub, judged)
 		}
 		if check && (last || log != nil) {
 			if _, dup := asSet(published); dup {
